@@ -29,18 +29,47 @@ from .c16_gen import (PYWS, gen_range_header, gen_len, gen_request, gen_elements
                       enum_small_headers, content_bytes, httpdate)
 
 PROPERTY = 'C16'
-LEAN_TARGETS = ['CpProofs.C16', 'drv_c16']
+LEAN_TARGETS = ['CpProofs.C16', 'CpProofs.C16Cond', 'drv_c16']
 DRIVER = 'drv_c16'
-THEOREMS = [
-    'CpProofs.C16.http10_whole',
-]
+THEOREMS = ['CpProofs.C16.' + t for t in (
+    # ranges: parsing
+    'ranges_in_bounds', 'getRanges_grammar', 'honoured_only_grammar', 'invalid_ignored',
+    'invalid_spec_ignored', 'honoured_iff', 'suffix_zero', 'suffix_on_empty', 'empty_entity_unsat',
+    # ranges: serving
+    'readSlice_eq', 'http10_whole', 'unknown_length_whole', 'serve_ignored', 'serve_unsat', 'serve_single',
+    'serve_multi', 'ranges_conform',
+    # validators
+    'validateSince_table', 'validateSince_no_lastmod', 'validateSince_guard', 'validateEtags_table',
+    'validateEtags_non2xx', 'absent_headers_pass', 'star_semantics', 'weak_is_not_equal', 'no_etag',
+    'respond_file_table', 'respond_gen_table', 'respond_gen_non2xx', 'file_status_table',
+    'file_conditional_iff_dictated', 'file_not_dictated_full', 'file_304_getHead', 'file_412_reason',
+    'respond_304_no_body', 'respond_unconditional_file', 'head_no_body',
+    # obligations over the regenerated tables
+    'space_codes_not_digit_dash_comma_eq', 'lower_table_sources', 'entity_headers_stripped_304',
+    'validator_headers_kept_304', 'content_range_kept_only_416', 'not_modified_methods',
+)]
 LEVEL = 'proof'
 TECHNIQUE = ('Lean 4 proof: get_ranges refined to a declarative RFC 7233 byte-range semantics on every '
              'grammar-generated header text (induction over the header structure), bounds invariant for every header '
              'string, slice equalities for _serve_fileobj, validator decision table by case analysis; model tied to '
              'httputil/static/cptools by differential runs (direct calls and in-process WSGI requests)')
-LEVEL_TEXT = 'filled in below'
-LEVEL_NOTE = 'filled in below'
+LEVEL_TEXT = ('Proved in Lean over the model of the repaired code, without size bounds: for EVERY header text and length '
+              'every slice get_ranges returns is non-empty and inside the entity; on every header of the RFC 7233 '
+              'byte-range grammar (any digit strings, lists, overlaps, order, beyond-EOF values, Python whitespace '
+              'around every token, any case of the unit) get_ranges equals the declarative semantics, and conversely '
+              'every text outside that grammar (or with last < first) is ignored; _serve_fileobj answers 416 + '
+              '"bytes */len", a single 206 whose body is exactly content[first..last] with the truthful Content-Range '
+              'and Content-Length (64 KiB chunked reads modelled), multipart parts equal to the slices, the whole '
+              'entity on HTTP/1.0 / unknown length / ignored header; validate_since / validate_etags equal the equality-'
+              'comparison decision table, the whole request (handler exceptions, tools.etags, finalize, HEAD) equals a '
+              'flat table, 304/412 exactly when a header dictates it, the full or ranged entity otherwise, 304 only for '
+              'GET/HEAD and never with body / Content-Range / Content-Length. Partial: md5, HTTPDate(mtime), the '
+              'multipart framing text and HeaderMap.elements (params, sorting) are inputs or correspondence-only.')
+LEVEL_NOTE = ('Trusted: Lean kernel (axioms propext, Classical.choice, Quot.sound only); the hand models CpModel/Ranges.lean '
+              'and Validators.lean as validated on every run by the differential streams (get_ranges directly, '
+              'header_elements, whole in-process WSGI requests over five resource kinds); CPython semantics of '
+              'split/strip/lower/int/re.fullmatch (whitespace and lower-case tables regenerated from the interpreter); '
+              'md5, HTTPDate and the multipart boundary are parameters; the harness and its oracles.')
 TRUSTED_BASE = [
     'md5 (autotags), HTTPDate(mtime) and the multipart boundary are inputs of the model, not modelled',
     'CPython str.split/strip/lower/int and re.fullmatch("[0-9]+") as transcribed in CpModel/Ranges.lean; the whitespace '
